@@ -385,3 +385,32 @@ def bool_equiv(e1, e2, max_atoms=8):
         if bool_eval(s1, val) != bool_eval(s2, val):
             return False
     return True
+
+
+def alternatives(mod, fn, rd, name, at, params=(), helpers=None, depth=0):
+    """The values a local may hold at `at`, each with the conditions under which it holds:
+    [(value node, [(canonical condition text, polarity)])].  Sees through if/else assignments, conditional
+    expressions and tuple unpacking (a, b = (x, y) if c else (y, x))."""
+    out = []
+    for d in rd.defs(name, at):
+        if d.node is None or d.kind not in ("assign", "unpack"):
+            out.append((None, []))
+            continue
+        base = [(t, p) for t, p, _n in canon_guards(mod, d.stmt, fn, rd, params)]
+        # only the if-statements enclosing the assignment distinguish the alternatives
+        stack = [(d.node, [])]
+        while stack:
+            v, conds = stack.pop()
+            if isinstance(v, ast.IfExp):
+                ct = canon(v.test, rd, d.stmt, params, helpers)
+                stack.append((v.body, conds + [(ct, True)]))
+                stack.append((v.orelse, conds + [(ct, False)]))
+                continue
+            if d.kind == "unpack" and isinstance(d.index, tuple) and len(d.index) == 1:
+                if isinstance(v, (ast.Tuple, ast.List)) and d.index[0] < len(v.elts):
+                    out.append((v.elts[d.index[0]], base + conds))
+                else:
+                    out.append((ast.Subscript(value=v, slice=ast.Constant(value=d.index[0]), ctx=ast.Load()), base + conds))
+            else:
+                out.append((v, base + conds))
+    return out
